@@ -49,8 +49,20 @@ func init() {
 		if msg == nil && err == nil {
 			return &core.Divergence{Action: "Decode", Field: "result", Kind: "wrong", Class: mut, Want: "a message or an error", Got: "nil, nil", Detail: detail}
 		}
+		// a decode of at most 4096 bytes takes microseconds; one slow measurement on a loaded machine (preemption, a collection)
+		// says nothing: the fastest of five has to be slow
+		for k := 0; k < 4 && el > 200*time.Millisecond; k++ {
+			t := time.Now()
+			func() {
+				defer func() { recover() }()
+				packet.Decode(bytes.NewBuffer(raw), opt)
+			}()
+			if d := time.Since(t); d < el {
+				el = d
+			}
+		}
 		if el > 200*time.Millisecond {
-			return &core.Divergence{Action: "Decode", Field: "time", Kind: "wrong", Class: mut, Want: "< 200ms", Got: el.String(), Detail: detail}
+			return &core.Divergence{Action: "Decode", Field: "time", Kind: "wrong", Class: mut, Want: "< 200ms (fastest of five)", Got: el.String(), Detail: detail}
 		}
 		if alloc := ms2.TotalAlloc - ms1.TotalAlloc; alloc > 4<<20 {
 			return &core.Divergence{Action: "Decode", Field: "memory", Kind: "wrong", Class: mut, Want: "< 4 MiB allocated for a message of at most 4096 bytes", Got: alloc, Detail: detail}
